@@ -25,3 +25,14 @@ prop("C20",
      assumptions=COMMON + ["the interval restarts at the first request after it elapsed (documented by ResetTime/EndTime); the single instant "
                            "'exactly one interval after the restart' is stepped over because the statement does not decide it",
                            "schedules of concurrent requests are sampled by the Go scheduler, not enumerated"])
+
+prop("C04",
+     rule="rapid draws (asset: bundled or generated layout; representation incl. audio/text/image; addressing Number/Time/Timeline-Number; "
+          "start, startNumber, tsbd 0..48h, ato in {0, fractions, > segment, inf}; live index n right after start / around loop wraps / "
+          "year-2026 / year-2090 distance) and a sorted sweep of 10-30 instants placed at A_n, A_n+tsbd, A_n+tsbd+10s, AST with offsets "
+          "0, +-1, +-2 ms and up to +-1 segment. Oracle: status from the integer reference model (425 before A_n, 200 on [A_n, A_n+tsbd], "
+          "410 one hour after at the latest), monotone 425*200*410*, 425 body = remaining ms; 404 for number<startNumber, unknown "
+          "representation, unknown asset. Non-trivial = a sweep that observed >= 2 different phases; distinct by hash of the case.",
+     quick=dict(shards=2, timeout=300), thorough=dict(shards=16, timeout=1500),
+     assumptions=COMMON + ["instants within 0.01 ms of a breakpoint that is not a whole second accept both neighbouring answers (float64 seconds in the code)",
+                           "'gone' is required one hour after A_n+tsbd at the latest; the exact 10 s margin is not asserted"])
